@@ -272,6 +272,18 @@ pub fn main_c10(args: &Args) -> std::io::Result<()> {
             if !approx(whole, parts, 1e-6) {
                 cx.fail("quadratic lengths of the split pieces do not add up", format!("{:?} t={} {} vs {}", q, t, whole, parts));
             }
+            let n = 1024;
+            let mut sl = 0.0;
+            let mut prev = q.sample(0.0);
+            for i in 1..=n {
+                let p = q.sample(i as f64 / n as f64);
+                sl += (p - prev).length();
+                prev = p;
+            }
+            let seg_len = Segment::approximate_length(&q, 1e-4);
+            if !approx(whole, sl, 1e-3) || !approx(seg_len, sl, 1e-3) {
+                cx.fail("quadratic length is not the length of the sampled curve", format!("{:?} {} (trait {}) vs sampled {}", q, whole, seg_len, sl));
+            }
         }
 
         // ---------------- cubic
@@ -341,6 +353,116 @@ pub fn main_c10(args: &Args) -> std::io::Result<()> {
             let parts = cb.before_split(t).approximate_length(tol) + cb.after_split(t).approximate_length(tol);
             if !approx(whole, parts, 2e-2) {
                 cx.fail("cubic lengths of the split pieces do not add up", format!("{:?} t={} {} vs {}", cb, t, whole, parts));
+            }
+            // the length is the length of the curve: against the polyline through 1024 samples (a lower bound that
+            // converges to the length)
+            let n = 1024;
+            let mut sl = 0.0;
+            let mut prev = cb.sample(0.0);
+            for i in 1..=n {
+                let p = cb.sample(i as f64 / n as f64);
+                sl += (p - prev).length();
+                prev = p;
+            }
+            let seg_len = Segment::approximate_length(&cb, tol);
+            if !approx(whole, sl, 2e-2) || seg_len != whole {
+                cx.fail("cubic approximate_length is not the length of the sampled curve", format!("{:?} {} (trait {}) vs sampled {}", cb, whole, seg_len, sl));
+            }
+        }
+    }
+    // ---- the same identities at f32 (lyon's default scalar), numerically: lattice curves (with coincident control
+    // points) as they are and moved by an affine map; split / sub-range / flip retrace the curve, derivative = slope,
+    // coordinates, lengths finite and additive
+    let nf = if args.thorough() { 60000 } else { 8000 };
+    for it in 0..nf {
+        let r = &mut rng;
+        let g = |r: &mut Rng| point(r.range(-9, 9) as f32, r.range(-9, 9) as f32);
+        let t = lyon_geom::euclid::default::Transform2D::<f32>::new(
+            0.3 + r.unit_f64() as f32, (r.unit_f64() - 0.5) as f32, (r.unit_f64() - 0.5) as f32, 0.3 + r.unit_f64() as f32,
+            (r.unit_f64() * 10.0 - 5.0) as f32, (r.unit_f64() * 10.0 - 5.0) as f32);
+        let mv = |p: lyon_geom::Point<f32>| if it % 2 == 0 { p } else { t.transform_point(p) };
+        let mut c0 = CubicBezierSegment { from: g(r), ctrl1: g(r), ctrl2: g(r), to: g(r) };
+        match it % 7 {
+            1 => c0.ctrl1 = c0.from,
+            2 => c0.ctrl2 = c0.to,
+            3 => { c0.ctrl1 = c0.from; c0.ctrl2 = c0.to }
+            4 => c0.to = c0.from,
+            5 => c0.ctrl1 = c0.ctrl2,
+            _ => {}
+        }
+        let c = CubicBezierSegment { from: mv(c0.from), ctrl1: mv(c0.ctrl1), ctrl2: mv(c0.ctrl2), to: mv(c0.to) };
+        let mut q0 = QuadraticBezierSegment { from: g(r), ctrl: g(r), to: g(r) };
+        match it % 5 {
+            1 => q0.ctrl = q0.to,
+            2 => q0.ctrl = q0.from,
+            3 => q0.to = q0.from,
+            _ => {}
+        }
+        let q = QuadraticBezierSegment { from: mv(q0.from), ctrl: mv(q0.ctrl), to: mv(q0.to) };
+        let (a, b) = (0.1 + 0.3 * r.unit_f64() as f32, 0.6 + 0.3 * r.unit_f64() as f32);
+        let tt = 0.3 + 0.4 * r.unit_f64() as f32;
+        cx.st.inc("evaluations");
+        cx.st.inc("f32_curves");
+        let label = format!("{:?} / {:?} a={} b={} t={}", q, c, a, b, tt);
+        cx.st.note_case(&label, true);
+        let res = catch(|| {
+            let mut bad: Vec<&'static str> = Vec::new();
+            let scale = 1.0 + [c.from, c.ctrl1, c.ctrl2, c.to, q.from, q.ctrl, q.to].iter().map(|p| p.to_vector().length()).fold(0.0f32, f32::max);
+            let e = 2e-4 * scale;
+            let (cs0, cs1) = c.split(a);
+            let (qs0, qs1) = q.split(a);
+            for i in 0..=4 {
+                let u = i as f32 / 4.0;
+                if (c.split_range(a..b).sample(u) - c.sample(a + (b - a) * u)).length() > e
+                    || (cs0.sample(u) - c.sample(a * u)).length() > e
+                    || (cs1.sample(u) - c.sample(a + (1.0 - a) * u)).length() > e
+                    || (c.before_split(a).sample(u) - cs0.sample(u)).length() > e
+                    || (c.after_split(a).sample(u) - cs1.sample(u)).length() > e
+                    || (c.flip().sample(u) - c.sample(1.0 - u)).length() > e
+                {
+                    bad.push("f32 cubic: split / sub-range / flip do not retrace the curve");
+                    break;
+                }
+                if (q.split_range(a..b).sample(u) - q.sample(a + (b - a) * u)).length() > e
+                    || (qs0.sample(u) - q.sample(a * u)).length() > e
+                    || (qs1.sample(u) - q.sample(a + (1.0 - a) * u)).length() > e
+                    || (q.before_split(a).sample(u) - qs0.sample(u)).length() > e
+                    || (q.after_split(a).sample(u) - qs1.sample(u)).length() > e
+                    || (q.flip().sample(u) - q.sample(1.0 - u)).length() > e
+                    || (q.to_cubic().sample(u) - q.sample(u)).length() > e
+                {
+                    bad.push("f32 quadratic: split / sub-range / flip / elevation do not retrace the curve");
+                    break;
+                }
+            }
+            let h = 1e-2f32;
+            if (c.derivative(tt) - (c.sample(tt + h) - c.sample(tt - h)) / (2.0 * h)).length() > 0.2 * scale
+                || (q.derivative(tt) - (q.sample(tt + h) - q.sample(tt - h)) / (2.0 * h)).length() > 0.2 * scale
+            {
+                bad.push("f32: the derivative is not the slope of the sampled curve");
+            }
+            if (c.x(tt) - c.sample(tt).x).abs() > e || (c.y(tt) - c.sample(tt).y).abs() > e || (c.dx(tt) - c.derivative(tt).x).abs() > 10.0 * e || (c.dy(tt) - c.derivative(tt).y).abs() > 10.0 * e
+                || (q.x(tt) - q.sample(tt).x).abs() > e || (q.y(tt) - q.sample(tt).y).abs() > e || (q.dx(tt) - q.derivative(tt).x).abs() > 10.0 * e || (q.dy(tt) - q.derivative(tt).y).abs() > 10.0 * e
+            {
+                bad.push("f32: x / y / dx / dy disagree with sample / derivative");
+            }
+            let tol = 1e-3f32;
+            let (l, l1, l2) = (c.approximate_length(tol), cs0.approximate_length(tol), cs1.approximate_length(tol));
+            if !l.is_finite() || !l1.is_finite() || !l2.is_finite() || (l - l1 - l2).abs() > 2e-2 * (1.0 + l) {
+                bad.push("f32 cubic: lengths of the split pieces are not finite or do not add up");
+            }
+            let (l, l1, l2) = (q.length(), qs0.length(), qs1.length());
+            if !l.is_finite() || !l1.is_finite() || !l2.is_finite() || (l - l1 - l2).abs() > 2e-3 * (1.0 + l) {
+                bad.push("f32 quadratic: lengths of the split pieces are not finite or do not add up");
+            }
+            bad
+        });
+        match res {
+            None => cx.fail("f32 curve operation panicked", label.clone()),
+            Some(bad) => {
+                for b in bad {
+                    cx.fail(b, label.clone());
+                }
             }
         }
     }
